@@ -22,6 +22,7 @@ RULE = (
     "and each row's log q is the value the proposal handed out for that very point. "
     "Non-trivial = >=1 initial draw rejected and >=1 top-up round, or a resumed / enlarged run."
 )
+RULE += " " + ('After the first pass the read-only diagnostics (tempered density, weights, evidence ratio) are evaluated on every recorded population and the population is checked again.')
 ASSUMPTIONS = [
     "kernel packages are harness doubles; the analytic proposal logs every batch it hands out",
     "re-evaluation tolerance 4*eps*(|v|+1): SIMD tails may round a row differently in another batch position",
